@@ -26,6 +26,7 @@ type ReplayCase struct {
 	Observes []string `json:"observes,omitempty"`
 	Reached  []string `json:"reached,omitempty"`
 	MapOrder bool     `json:"map_order_dependent,omitempty"`
+	Repeat   int      `json:"repeat,omitempty"`
 	// outcome
 	Confirmed bool   `json:"confirmed"`
 	Native    string `json:"native,omitempty"`
@@ -77,7 +78,7 @@ func (s *Session) replayCases(reports []*CaseReport) []*ReplayCase {
 		for _, v := range rep.Violations {
 			n++
 			out = append(out, &ReplayCase{ID: fmt.Sprintf("v%d", n), Pkg: rep.Case.Pkg, Harness: rep.Case.Func, Params: rep.Case.Params,
-				Inputs: v.Inputs, Kind: v.Kind, Msg: v.Msg, KF: v.KF})
+				Inputs: v.Inputs, Kind: v.Kind, Msg: v.Msg, KF: v.KF, MapOrder: v.MapOrder, Repeat: repeatFor(v.MapOrder)})
 		}
 		for _, w := range rep.Witnesses {
 			n++
@@ -86,6 +87,15 @@ func (s *Session) replayCases(reports []*CaseReport) []*ReplayCase {
 		}
 	}
 	return out
+}
+
+// repeatFor: a counterexample that depends on Go's (random) map iteration order is
+// run natively up to 60 times; it counts as reproduced if any run fails the same way.
+func repeatFor(mapOrder bool) int {
+	if mapOrder {
+		return 60
+	}
+	return 0
 }
 
 func (s *Session) Replay(reports []*CaseReport) *ReplayReport {
